@@ -22,4 +22,5 @@ go test -vet=off -count=1 ./cmd/rdpgw/... ./cmd/auth/ntlm/... ./cmd/auth/databas
 echo "SEED $P $(basename $SRC): demo-on-clean-exit=$CLEAN build=$BUILD demo-with-patch-exit=$MUT baseline-with-patch-exit=$BASE"
 # the check runs against the scratch worktree (VERIF_REPO), so /repo itself is never touched and
 # several seeded changes can be checked side by side
-cd /verif && { VERIF_REPO=$W timeout 1800 /verif/bin/vcheck -property $P -noevidence "$@" 2>&1 | grep -E "^VIOLATION|class=|violations=|INFRA|KNOWN" | cut -c1-300 | head -8; }
+# (VERIF_DIR / VBIN let a regression run use a snapshot of the machinery while /verif is being edited)
+cd ${VERIF_DIR:-/verif} && { VERIF_DIR=${VERIF_DIR:-/verif} VERIF_REPO=$W timeout 1800 ${VBIN:-/verif/bin}/vcheck -property $P -noevidence "$@" 2>&1 | grep -E "^VIOLATION|class=|violations=|INFRA|KNOWN" | cut -c1-300 | head -8; }
